@@ -451,7 +451,8 @@ def run_bench(run, env):
         tick(counter[0])
 
     try:
-      state = _state_factory(bs, run)(seed=run['seed'])
+      factory = _state_factory(bs, run)
+      state = factory(seed=run['seed'])
       before, each = [], []
       for ps in run.get('prior_studies') or []:
         sub = br.EvaluateAndAddPriorStudy(
@@ -476,6 +477,16 @@ def run_bench(run, env):
       runner.run(state)
     except Exception as e:  # pylint: disable=broad-except
       obs['error'] = _err('run', e)
+    if run.get('second_state') and obs['error'] is None:
+      # the same state-factory object is asked for another state with the same
+      # seed (what a repeated benchmark does): an identical run
+      try:
+        state2 = factory(seed=run['seed'])
+        runner.run(state2)
+        obs['second'] = [trial_obs(t)
+                         for t in state2.algorithm.supporter.GetTrials()]
+      except Exception as e:  # pylint: disable=broad-except
+        obs['second'] = {'error': _err('second_state', e)}
     try:
       sup = state.algorithm.supporter
       obs['trials'] = [trial_obs(t) for t in sup.GetTrials()]
